@@ -1174,6 +1174,39 @@ func runC10(c *Checker) {
 			"the server can report a completed handshake at "+bad+" without calling setN: it enters the data phase with the default window instead of the one it echoed to the client")
 	}
 
+	// ---- GBNHS-2 (cont.): the client never reports a completed handshake without having sent the SYNACK ----
+	if synackSend != nil {
+		exitBodies := map[*ssa.BasicBlock]bool{}
+		allInstrs(ch, func(in ssa.Instruction) {
+			if sel, ok := in.(*ssa.Select); ok {
+				cases, _ := w.selectCases(sel)
+				for _, scs := range cases {
+					if !scs.IsSend && scs.Body != nil && !isByteSliceChan(scs.Chan) {
+						exitBodies[scs.Body] = true
+					}
+				}
+			}
+		})
+		bad := ""
+		allInstrs(ch, func(in ssa.Instruction) {
+			ret, ok := in.(*ssa.Return)
+			if !ok || bad != "" || exitBodies[ret.Block()] || len(ret.Results) == 0 {
+				return
+			}
+			succ := false
+			for _, v := range expandValues(ret.Results[len(ret.Results)-1]) {
+				if isNilConst(v) {
+					succ = true
+				}
+			}
+			if succ && pathFromEntry(ch, ret, func(i2 ssa.Instruction) bool { return i2 == ssa.Instruction(synackSend) }) {
+				bad = w.pos(instrPos(ret))
+			}
+		})
+		c.decide(bad == "", "GBNHS-2", "clientHandshake|every completion sends SYNACK", ch.Pos(), "no nil return outside the quit/ctx cases without the SYNACK send",
+			"the client can report a completed handshake at "+bad+" without having sent SYNACK: the server keeps waiting and restarts while the client already sends data")
+	}
+
 	// ---- GBNHS-6: the handshake timeout is re-armed for every wait ----
 	for _, fn := range []*ssa.Function{ch, sh} {
 		ruleHandshakeTimerRearmed(c, fn)
